@@ -12,5 +12,7 @@ CONSTANTS
     MaxFault = 1
     MaxGzWrites = 2
     Ticks = FALSE
+    Fatal = FALSE
+    FlushOnFatal = TRUE
 INVARIANT W_NeverRetires
 CHECK_DEADLOCK FALSE
